@@ -528,6 +528,11 @@ def reproduce(ctx, binary, binary_race, body, tries=4):
     path = ctx.path("replay_case.json")
     with open(path, "w") as f:
         json.dump({"sig": body.get("sig", {}), "case": {"schedule": s, "kind": kind}}, f)
+    if s.get("mode") != "strict":
+        # free-running / stress schedules hit a narrow window only now and then (measured about
+        # 1 in 7 for the renegotiation lock-order window): give the fresh-process replay enough
+        # attempts that an unreproduced candidate really means "not reproducible"
+        tries = max(tries, 24)
     for t in range(tries):
         out = ctx.path("replay_events.ndjson")
         if kind == "race":
